@@ -820,7 +820,7 @@ func (t *Table) Select(option ...TableSelectOption) (*Table, error) {
 		as = o.AS
 	}
 	dOption := DestinationSelectOption{ID: id, AS: as, VRF: vrf, adj: adj, Best: best, MultiPath: mp}
-	r := NewTable(nil, t.Family)
+	r := NewTable(t.logger, t.Family)
 
 	if len(prefixes) != 0 {
 		switch t.Family {
